@@ -135,3 +135,14 @@ Proof.
   split; [vm_compute; left; reflexivity|]. vm_compute. discriminate.
 Qed.
 Print Assumptions C09_zero_complete_refuted.
+
+(* The guards are satisfiable by a non-trivial world (the one of C09_example, which exits 0
+   with its file written): keys and files correspond, package paths are distinct. *)
+Example C09_guards_satisfiable : no_alias (ex_world [B "I"]) /\ wf_world (ex_world [B "I"]).
+Proof.
+  split.
+  - intros p1 q1 p2 q2 H1 H2.
+    change (selected_reqs (ex_world [B "I"])) with [(ex_pkg [B "I"], ex_req)] in H1, H2.
+    destruct H1 as [H1|[]], H2 as [H2|[]]. injection H1 as <- <-. injection H2 as <- <-. tauto.
+  - unfold wf_world. simpl. constructor; [intros [] | constructor].
+Qed.
